@@ -148,7 +148,9 @@ Scalars == {B(n) : n \in {"bool", "int8", "uint8", "int16", "uint16", "int32", "
                           "uintptr", "float32", "float64", "complex64", "complex128", "string", "unsafeptr"}}
 Words == {P(B("int64")), P(FN), SL(B("int8")), SL(FN), IFC(0), IFC(1), MP(B("int32"), B("int64")), MP(B("string"), FN),
           CH(B("int64")), CH(FN), FN, AL(FN),
-          MP(B("int8"), AR(17, B("int64"))), MP(AR(17, B("int64")), B("int8"))}     \* slots larger than MaxSlot
+          MP(B("int8"), AR(17, B("int64"))), MP(AR(17, B("int64")), B("int8")),     \* slots larger than MaxSlot
+          MP(B("int8"), AR(16, B("int64"))), MP(AR(16, B("int64")), B("int8")),     \* slots of exactly MaxSlot bytes: still inline
+          MP(B("int8"), AR(15, B("int64")))}
 Zeros == {ST(<<>>), AR(0, B("int64")), AR(0, B("int8")), AR(0, FN)}
 Leaves == Scalars \cup Words \cup Zeros
 \* field menus: structs of <= 2 fields over all leaves, 3 fields over M3, 4 fields over M4
